@@ -460,8 +460,26 @@ func (r *collection) Remove(t reflect.Type) {
 	r.mu.Lock()
 	defer r.mu.Unlock()
 
-	typeKey := TypeKey{Type: t}
-	delete(r.services, typeKey)
+	r.removeService(TypeKey{Type: t})
+}
+
+// removeService removes a registered service completely: from the lookup table
+// and from the list of descriptors that queries report and Build uses.
+func (r *collection) removeService(key TypeKey) {
+	descriptor, ok := r.services[key]
+	if !ok {
+		return
+	}
+
+	delete(r.services, key)
+
+	remaining := make([]*Descriptor, 0, len(r.allDescriptors))
+	for _, d := range r.allDescriptors {
+		if d != descriptor {
+			remaining = append(remaining, d)
+		}
+	}
+	r.allDescriptors = remaining
 }
 
 // RemoveKeyed removes a specific keyed service
@@ -473,8 +491,7 @@ func (r *collection) RemoveKeyed(t reflect.Type, key any) {
 	r.mu.Lock()
 	defer r.mu.Unlock()
 
-	typeKey := TypeKey{Type: t, Key: key}
-	delete(r.services, typeKey)
+	r.removeService(TypeKey{Type: t, Key: key})
 }
 
 // ToSlice returns a copy of all registered service descriptors
